@@ -52,7 +52,11 @@ def observe(sess, hist, op, exc, valid, reason, pre, acc):
     if exc is not None:
         return
     cfg = sess.cfg
-    data = sess.disk()
+    try:
+        data = sess.disk()
+    except kdriver.FileTooBig as e:
+        raise core.Violation("file-length", kcommon.sig(PROP, "file-length", op, cfg), None,
+                             f"after {[kdriver.op_str(o) for o in hist]}: {e}")
     bad = compact_violation(data, cfg.n)
     if bad:
         raise core.Violation(bad[0], kcommon.sig(PROP, bad[0], op, cfg), None,
@@ -72,6 +76,7 @@ def observe(sess, hist, op, exc, valid, reason, pre, acc):
                                      f"remove of {sizes[0]} bytes shrank the file by {len(pre['disk']) - len(data)}")
 
 
+observe.wants_big_files = True
 _shard = kcommon.make_run(__name__, "observe", extra_ops=kcommon.long_comment_ops)
 
 
